@@ -10,9 +10,11 @@ package rpc
 // the theorems are stated with) judge it.
 
 import (
+	"bytes"
 	"errors"
 	"fmt"
 	"io"
+	"net"
 	"os"
 	"strings"
 	"testing"
@@ -22,6 +24,33 @@ import (
 	"github.com/keybase/go-codec/codec"
 	"golang.org/x/net/context"
 )
+
+// sessLog: the quiet log, except that a reply the server could not send
+// (result too large for a frame, unencodable) is recorded as an event.
+type sessLog struct {
+	LogInterface
+	r  *schedRun
+	ep int
+}
+
+func (l sessLog) Warning(format string, args ...interface{}) {
+	if strings.HasPrefix(format, "Reply error for") && len(args) == 2 {
+		cls := "other"
+		if e, ok := args[1].(string); ok && strings.HasPrefix(e, "frame length too big") {
+			cls = "toobig"
+		}
+		l.r.ev("replyerr %d %v %s", l.ep, args[0], cls)
+	}
+}
+
+type sessLogFactory struct {
+	r  *schedRun
+	ep int
+}
+
+func (f sessLogFactory) NewLog(a net.Addr) LogInterface {
+	return sessLog{LogInterface: quietLogFactory().NewLog(a), r: f.r, ep: f.ep}
+}
 
 type recStorage struct {
 	r  *schedRun
@@ -89,6 +118,8 @@ type session struct {
 	late  []func() // late-write checks
 	hctx  map[string]context.Context
 	holds int
+	extra int          // extra bytes a handler adds to its result (reply larger than the request)
+	frames [2][][]byte // frames written by each endpoint, in order
 }
 
 func outcomeOf(err error) string {
@@ -147,9 +178,10 @@ func (s *session) newEndpoint(id int, c *simConn) *endpoint {
 	c.onWrite = func(p []byte) error {
 		verifPoint("conn.Write")
 		s.r.ev("wr %d %x %s", id, p, payloadNonce(p))
+		s.frames[id] = append(s.frames[id], append([]byte(nil), p...))
 		return nil
 	}
-	e.xp = NewTransport(c, quietLogFactory(), &recStorage{s.r, id}, nil, s.max).(*transport)
+	e.xp = NewTransport(c, sessLogFactory{s.r, id}, &recStorage{s.r, id}, nil, s.max).(*transport)
 	e.cli = NewClientWithSendNotifier(e.xp, nil, nil, func(q SeqNumber) { s.r.ev("sn %d %d", id, int(q)) })
 	e.srv = NewServer(e.xp, nil)
 	mk := func() interface{} { return new(interface{}) }
@@ -189,7 +221,11 @@ func (s *session) newEndpoint(id int, c *simConn) *endpoint {
 			if u, ok := x["n"].(uint64); ok {
 				n = int64(u)
 			}
-			return map[string]interface{}{"n": n + 1000000, "pad": x["pad"]}
+			res := map[string]interface{}{"n": n + 1000000, "pad": x["pad"]}
+			if s.extra > 0 {
+				res["extra"] = strings.Repeat("y", s.extra)
+			}
+			return res
 		}
 		return nil
 	}
@@ -298,10 +334,13 @@ type sessPlan struct {
 	faultAt int // step at which the closer / cut actor becomes eligible (-1: any time)
 	pct     bool
 	observe bool
+	extra   int
+	inject  []string // hostile flavour: frames injected into the traffic (kind@endpoint)
+	forceAt int      // step at which the fault actor is released at the latest (-1: scheduler's choice)
 }
 
 func genPlan(g *prng, flavour string) sessPlan {
-	p := sessPlan{max: 1 << 20, faultAt: -1, observe: true}
+	p := sessPlan{max: 1 << 20, faultAt: -1, forceAt: -1, observe: true}
 	n := 1 + g.intn(4)
 	methods := []string{"echo", "echo", "hold", "wait", "fail"}
 	for i := 0; i < n; i++ {
@@ -335,7 +374,15 @@ func genPlan(g *prng, flavour string) sessPlan {
 		if p.closer == "handler" {
 			p.ops = append(p.ops, sessOp{caller: len(p.ops), ep: g.intn(2), kind: "call", method: "closer", nonce: 900})
 		}
+	case "hostile":
+		for k := 0; k < 1+g.intn(4); k++ {
+			p.inject = append(p.inject, fmt.Sprintf("%s@%d",
+				[]string{"dupresp", "strayresp", "straycancel", "nfcall", "nfnotify", "dupresp"}[g.intn(6)], g.intn(2)))
+		}
 	case "limit":
+		if g.chance(1, 2) {
+			p.extra = 8 + g.intn(10)
+		}
 		p.max = 256
 		for i := range p.ops {
 			if g.chance(1, 2) {
@@ -351,10 +398,14 @@ func genPlan(g *prng, flavour string) sessPlan {
 func runSession(g *prng, p sessPlan, script []string) (hist []string, trace []string, steps int) {
 	r := newSchedRun(g)
 	r.script = script
+	if p.forceAt >= 0 {
+		r.forceStep = p.forceAt
+		r.forceWho = []string{"@closer0", "@cutter"}
+	}
 	if p.pct {
 		r.pct = map[string]int{}
 	}
-	s := &session{r: r, max: p.max, hctx: map[string]context.Context{}}
+	s := &session{r: r, max: p.max, hctx: map[string]context.Context{}, extra: p.extra}
 	baseline := libGoroutines()
 	a, b := newSimPair(0)
 	// constructing the transports starts library goroutines: do it in an actor
@@ -409,6 +460,60 @@ func runSession(g *prng, p sessPlan, script []string) (hist []string, trace []st
 			at := p.faultAt
 			r.hold("cutter", func(step int) bool { return step >= at })
 		}
+	}
+	if len(p.inject) > 0 {
+		r.spawn("inj", func() {
+			enc := &altEnc{}
+			for k, spec := range p.inject {
+				verifPoint("@inj.next")
+				kind := spec[:strings.Index(spec, "@")]
+				ep := int(spec[len(spec)-1] - '0')
+				var body bytes.Buffer
+				switch kind {
+				case "dupresp":
+					// repeat the last reply the peer sent to this endpoint
+					var last []byte
+					for _, f := range s.frames[1-ep] {
+						if len(f) > 2 && f[prefixLen(f)] == 0x94 && f[prefixLen(f)+1] == 0x01 {
+							last = f
+						}
+					}
+					if last == nil {
+						continue
+					}
+					r.ev("inj %d dupresp", ep)
+					s.ep[ep].conn.inject(last)
+					continue
+				case "strayresp":
+					body.WriteByte(0x94)
+					enc.intv(&body, 1)
+					enc.intv(&body, int64(9000+k))
+					enc.value(&body, nil)
+					enc.value(&body, int64(5))
+				case "straycancel":
+					body.WriteByte(0x93)
+					enc.intv(&body, 3)
+					enc.intv(&body, int64(9000+k))
+					enc.str(&body, []byte("p.echo"))
+				case "nfcall":
+					body.WriteByte(0x94)
+					enc.intv(&body, 0)
+					enc.intv(&body, int64(7000+k))
+					enc.str(&body, []byte("p.nope"))
+					enc.value(&body, int64(1))
+				case "nfnotify":
+					body.WriteByte(0x93)
+					enc.intv(&body, 2)
+					enc.str(&body, []byte("nope.x"))
+					enc.value(&body, int64(1))
+				}
+				var fr bytes.Buffer
+				enc.intv(&fr, int64(body.Len()))
+				fr.Write(body.Bytes())
+				r.ev("inj %d %s", ep, kind)
+				s.ep[ep].conn.inject(fr.Bytes())
+			}
+		})
 	}
 	if p.observe {
 		r.spawn("obs", func() {
@@ -471,16 +576,40 @@ func runSession(g *prng, p sessPlan, script []string) (hist []string, trace []st
 
 func init() {
 	verifModes["session"] = func(c *vctx) {
-		flavours := strings.Split(c.envOr("VERIF_FLAVOURS", "plain,close,limit"), ",")
+		flavours := strings.Split(c.envOr("VERIF_FLAVOURS", "plain,close,limit,hostile,faultat"), ",")
 		leaks := 0
 		var totalSteps int
+		var faBase *sessPlan
+		var faSeed uint64
+		var faK, faSteps int
+		faStride := 3
+		if c.tier == "thorough" {
+			faStride = 0
+		}
 		synctest.Test(c.t, func(t *testing.T) {
 			g := newPrng(c.seed, 31)
 			for i := 0; i < c.n; i++ {
 				fl := flavours[i%len(flavours)]
 				pg := g.fork()
-				plan := genPlan(pg, fl)
 				sg := g.fork()
+				var plan sessPlan
+				if fl == "faultat" {
+					// fault at every point: the same plan and schedule, with the close / cut released at step k
+					if faBase == nil || faK > faSteps {
+						bp := genPlan(pg, "close")
+						bp.pct = false
+						faBase, faSeed, faK = &bp, sg.s, 0
+						hold := *faBase
+						hold.forceAt = 1 << 30
+						_, _, faSteps = runSession(&prng{s: faSeed}, hold, nil)
+					}
+					plan = *faBase
+					plan.forceAt = faK
+					faK += 1 + faStride
+					sg = &prng{s: faSeed}
+				} else {
+					plan = genPlan(pg, fl)
+				}
 				hist, trace, steps := runSession(sg, plan, nil)
 				totalSteps += steps
 				for _, h := range hist {
@@ -488,7 +617,7 @@ func init() {
 						leaks++
 					}
 				}
-				c.note("%s scen=%d steps=%d ops=%d closer=%s pct=%v", fl, i, steps, len(plan.ops), plan.closer, plan.pct)
+				c.note("%s scen=%d steps=%d ops=%d closer=%s pct=%v force=%d inj=%d", fl, i, steps, len(plan.ops), plan.closer, plan.pct, plan.forceAt, len(plan.inject))
 				c.op("mon %d %s", plan.max, strings.Join(hist, " ; "))
 				c.res("ok")
 				if os.Getenv("VERIF_TRACE") != "" {
